@@ -10,6 +10,9 @@ Lib/DecArith.vos Lib/DecArith.vok Lib/DecArith.required_vos: Lib/DecArith.v Lib/
 Lib/DecFacts.vo Lib/DecFacts.glob Lib/DecFacts.v.beautified Lib/DecFacts.required_vo: Lib/DecFacts.v Lib/Base.vo Lib/DecArith.vo
 Lib/DecFacts.vio: Lib/DecFacts.v Lib/Base.vio Lib/DecArith.vio
 Lib/DecFacts.vos Lib/DecFacts.vok Lib/DecFacts.required_vos: Lib/DecFacts.v Lib/Base.vos Lib/DecArith.vos
+Model/Liquidity.vo Model/Liquidity.glob Model/Liquidity.v.beautified Model/Liquidity.required_vo: Model/Liquidity.v Lib/Base.vo Lib/DecArith.vo
+Model/Liquidity.vio: Model/Liquidity.v Lib/Base.vio Lib/DecArith.vio
+Model/Liquidity.vos Model/Liquidity.vok Model/Liquidity.required_vos: Model/Liquidity.v Lib/Base.vos Lib/DecArith.vos
 Model/Market.vo Model/Market.glob Model/Market.v.beautified Model/Market.required_vo: Model/Market.v Lib/Base.vo
 Model/Market.vio: Model/Market.v Lib/Base.vio
 Model/Market.vos Model/Market.vok Model/Market.required_vos: Model/Market.v Lib/Base.vos
@@ -19,6 +22,6 @@ Proofs/MarketProofs.vos Proofs/MarketProofs.vok Proofs/MarketProofs.required_vos
 Properties/C17.vo Properties/C17.glob Properties/C17.v.beautified Properties/C17.required_vo: Properties/C17.v Lib/Base.vo Model/Market.vo Proofs/MarketProofs.vo
 Properties/C17.vio: Properties/C17.v Lib/Base.vio Model/Market.vio Proofs/MarketProofs.vio
 Properties/C17.vos Properties/C17.vok Properties/C17.required_vos: Properties/C17.v Lib/Base.vos Model/Market.vos Proofs/MarketProofs.vos
-Extract/Extract.vo Extract/Extract.glob Extract/Extract.v.beautified Extract/Extract.required_vo: Extract/Extract.v Lib/Base.vo Lib/DecArith.vo Model/Market.vo
-Extract/Extract.vio: Extract/Extract.v Lib/Base.vio Lib/DecArith.vio Model/Market.vio
-Extract/Extract.vos Extract/Extract.vok Extract/Extract.required_vos: Extract/Extract.v Lib/Base.vos Lib/DecArith.vos Model/Market.vos
+Extract/Extract.vo Extract/Extract.glob Extract/Extract.v.beautified Extract/Extract.required_vo: Extract/Extract.v Lib/Base.vo Lib/DecArith.vo Model/Liquidity.vo Model/Market.vo
+Extract/Extract.vio: Extract/Extract.v Lib/Base.vio Lib/DecArith.vio Model/Liquidity.vio Model/Market.vio
+Extract/Extract.vos Extract/Extract.vok Extract/Extract.required_vos: Extract/Extract.v Lib/Base.vos Lib/DecArith.vos Model/Liquidity.vos Model/Market.vos
